@@ -11,7 +11,7 @@ from __future__ import annotations
 
 import ast
 
-from ..common import Ctx, is_const, is_name, src
+from ..common import Ctx, call_name, is_const, is_name, src
 from ..model import AnalysisError, bind_call, own_scope_nodes
 
 BASE = "tensorly.base"
@@ -62,11 +62,13 @@ def run(ctx: Ctx):
         "backend reshape / moveaxis / transpose are bijections on entries and keep the dtype (NumPy semantics; trusted)",
         "NOT decided: that the permutation is the documented one (index arithmetic of new_shape, skip_end, matricize's mode lists)",
     )
+    res.rule("SHAPE-BY-POSITION", "lists derived from a shape are edited by position (pop(i) / insert(i, x) / del / slices), never by value (remove / index / count): mode sizes are not unique, so a value-based edit picks the first axis that merely has the same size", floor=4)
     mod = repo.module(BASE)
     fis = {n: repo.func(f"{BASE}.{n}") for n in FUNCS}
     for n, fi in fis.items():
         ctx.guarded(layout_only, ctx, fi)
         ctx.guarded(axis_live, ctx, fi)
+        ctx.guarded(shape_by_position, ctx, fi)
     ctx.guarded(inverse_mirror, ctx, fis["unfold"], fis["fold"])
     ctx.guarded(inverse_mirror, ctx, fis["partial_unfold"], fis["partial_fold"])
     ctx.guarded(forward, ctx, fis["partial_tensor_to_vec"], fis["partial_unfold"], {"mode": 0, "ravel_tensors": True})
@@ -74,6 +76,52 @@ def run(ctx: Ctx):
 
 
 # ---------------------------------------------------------------------------------
+BY_VALUE = {"remove", "index", "count"}
+BY_POSITION = {"pop", "insert", "append", "extend", "reverse", "copy"}
+
+
+def shape_by_position(ctx: Ctx, fi):
+    """which locals hold (a copy / slice / concatenation of) a shape, and how they are edited"""
+    res = ctx.res
+    shapes = {p for p in fi.all_params if p == "shape" or p.endswith("_shape")}
+
+    def is_shape(e):
+        if isinstance(e, ast.Name):
+            return e.id in shapes
+        if isinstance(e, ast.Attribute):
+            return e.attr == "shape"
+        if isinstance(e, ast.Call):
+            nm = call_name(e)
+            if nm == "shape":
+                return True
+            if nm in ("list", "tuple", "reversed") and e.args:
+                return is_shape(e.args[0])
+            return False
+        if isinstance(e, ast.Subscript):
+            return isinstance(e.slice, ast.Slice) and is_shape(e.value)
+        if isinstance(e, ast.BinOp) and isinstance(e.op, ast.Add):
+            return is_shape(e.left) or is_shape(e.right)
+        if isinstance(e, (ast.ListComp, ast.GeneratorExp)):
+            return any(is_shape(g.iter) for g in e.generators) and isinstance(e.elt, ast.Name)
+        return False
+
+    changed = True
+    while changed:
+        changed = False
+        for s in own_scope_nodes(fi.node):
+            if isinstance(s, ast.Assign) and is_shape(s.value):
+                for t in s.targets:
+                    if isinstance(t, ast.Name) and t.id not in shapes:
+                        shapes.add(t.id)
+                        changed = True
+    for c in own_scope_nodes(fi.node):
+        if isinstance(c, ast.Call) and isinstance(c.func, ast.Attribute) and is_shape(c.func.value) and (c.func.attr in BY_VALUE or c.func.attr in BY_POSITION):
+            ok = c.func.attr in BY_POSITION
+            res.instance("SHAPE-BY-POSITION", f"{fi.name}: {src(c)[:60]}", sample={"line": c.lineno, "by_position": ok})
+            if not ok:
+                ctx.finding("SHAPE-BY-POSITION", fi, c, f"`{src(c)[:80]}` edits a shape by VALUE: `{c.func.attr}` finds the first axis whose size equals the argument, which is another axis whenever two modes have the same size (e.g. shape (2, 3, 2)); the layout functions must address axes by position", construct=f"{fi.name}: .{c.func.attr}() on a shape-derived list")
+
+
 def layout_only(ctx: Ctx, fi):
     res = ctx.res
     tparam = fi.pos_params[0]
